@@ -254,7 +254,11 @@ def translate(path: StrPath, workdir: StrPath = ".") -> Path:
     if not path.isabs():
         workdir = coerce_path(workdir).normpath()
         path = workdir / path
-        if not workdir.isabs():
+        if workdir.isabs():
+            # Joining can reintroduce `.` and `..` components (e.g. `/w` and `../x`),
+            # and the same file must not be recorded under two different labels.
+            path = path.normpath()
+        else:
             root = get_stepup_root()
             here = Path(os.getenv("HERE", Path(".").relpath(root)))
             path = (root / here / path).normpath().relpath(root)
